@@ -1035,6 +1035,76 @@ example : ∃ m' r, Op.execP (K := Rat) (fun A a b m => lincombImpl params 2 con
 
 end
 
+/-! ## Tensor-element overrides: `copy`, `conj(out=)`, `real` / `imag` setters, `__ipow__` -/
+
+section
+variable {K : Type}
+
+/-- `x.copy()` (`NumpyTensor.copy`, `DiscretizedSpaceElement.copy`): the returned element is
+the fresh buffer, holds the contents of `x`, and nothing else changes (so for `t ≠ x` the
+original is untouched and shares nothing with the copy). By construction of `tcopy` (NumPy's
+`ndarray.copy` is modelled as an exact entry-wise map). -/
+theorem C01.tcopy_correct (x t : Nat) (m : Mem K) :
+    (tcopy x t m).2 = t ∧ (tcopy x t m).1 t = m x ∧ ∀ b, b ≠ t → (tcopy x t m).1 b = m b :=
+  ⟨rfl, by simp [tcopy, Mem.write], fun b hb => by simp [tcopy, Mem.write, hb]⟩
+
+/-- `x.conj(out)` in each of its four branches (`space.is_real` × `out is None`): the returned
+element is `out` when given, `self` on a real space without `out`, a fresh element otherwise;
+it holds the entry-wise conjugate of the PRE-state of `self` — also for `out is self` — and
+no other buffer changes. `hreal`: on a real space conjugation fixes the data. A case split over
+the branches of `tconj`; each branch holds by construction. -/
+theorem C01.tconj_correct (cj : K → K) (isReal : Bool) (x : Nat) (out : Option Nat) (t : Nat)
+    (m : Mem K) (hreal : isReal = true → ∀ i, cj (m x i) = m x i) :
+    (tconj cj isReal x out t m).2 = (match out with
+        | some o => o
+        | none => if isReal then x else t) ∧
+    (∀ i, (tconj cj isReal x out t m).1 (tconj cj isReal x out t m).2 i = cj (m x i)) ∧
+    ∀ b, b ≠ (tconj cj isReal x out t m).2 → (tconj cj isReal x out t m).1 b = m b := by
+  cases isReal <;> cases out <;> simp_all [tconj, Mem.write]
+
+/-- In-place conjugation twice (`x.conj(out=x)`; `x.conj(out=x)`) restores `x` exactly and
+leaves the whole memory as it was, for an involutive scalar conjugation. -/
+theorem C01.tconj_inplace_involutive (cj : K → K) (hcj : ∀ z, cj (cj z) = z) (isReal : Bool)
+    (x t : Nat) (m : Mem K) :
+    (tconj cj isReal x (some x) t (tconj cj isReal x (some x) t m).1).1 = m := by
+  funext b
+  cases isReal <;> by_cases hb : b = x <;> simp [tconj, Mem.write, hb, hcj]
+
+/-- The `real` / `imag` setters on Gaussian-rational data. Complex space: `x.real = v` sets the
+real parts and keeps the imaginary parts, `x.imag = w` the converse, both touch nothing but
+`x`, and after both `x` is `v + i w` whatever it held before. Real space: `x.real = v` assigns,
+`x.imag = w` raises. By construction of `setReal` / `setImag` (the write through the NumPy
+view `data.real` / `data.imag` is what the model asserts; the correspondence checks it). -/
+theorem C01.setReal_setImag_correct (x : Nat) (v w : Vec OdlModel.CRat) (m : Mem OdlModel.CRat) :
+    (∀ i, setReal false x v m x i = ⟨(v i).re, (m x i).im⟩) ∧
+    (∀ b, b ≠ x → setReal false x v m b = m b) ∧
+    (∃ m', setImag false x w m = some m' ∧ (∀ i, m' x i = ⟨(m x i).re, (w i).re⟩) ∧
+      ∀ b, b ≠ x → m' b = m b) ∧
+    (∃ m', setImag false x w (setReal false x v m) = some m' ∧
+      ∀ i, m' x i = ⟨(v i).re, (w i).re⟩) ∧
+    (∀ i, setReal true x v m x i = ⟨(v i).re, 0⟩) ∧ setImag true x w m = none := by
+  refine ⟨fun i => by simp [setReal, Mem.write], fun b hb => by simp [setReal, Mem.write, hb],
+    ⟨_, rfl, fun i => by simp [Mem.write], fun b hb => by simp [Mem.write, hb]⟩,
+    ⟨_, rfl, fun i => by simp [setReal, Mem.write]⟩, fun i => by simp [setReal, Mem.write], rfl⟩
+
+/-- `x **= p` with an exponent that is an integer VALUE (`2`, `2.0`, `-3.0`) takes the generic
+recursion of `LinearSpaceElement.__ipow__` in every class (so `C01.ipow_int_correct` applies
+to `NumpyTensor` and `DiscretizedSpaceElement` too), and a non-integer exponent never does:
+it reaches `np.power` (tensor override) or raises. -/
+theorem C01.ipow_route_integer (tensorOverride : Bool) (p : Int) (q : Rat) (hq : q.den ≠ 1) :
+    ipowRoute tensorOverride (p : Rat) = .generic p ∧
+    ipowRoute tensorOverride q = (if tensorOverride then .npPower else .raises) := by
+  simp [ipowRoute, hq]
+
+/-- Non-vacuity: conjugating `(1 + 2i, 3)` into itself on the executed scalar type. -/
+example : (tconj OdlModel.CRat.conj false 0 (some 0) 1
+    (fun _ i => if i = 0 then (⟨1, 2⟩ : OdlModel.CRat) else ⟨3, 0⟩)).1 0 0 = ⟨1, -2⟩ := by
+  have h := (C01.tconj_correct OdlModel.CRat.conj false 0 (some 0) 1
+    (fun _ i => if i = 0 then (⟨1, 2⟩ : OdlModel.CRat) else ⟨3, 0⟩) (by simp)).2.1 0
+  simpa [tconj, OdlModel.CRat.conj] using h
+
+end
+
 /-- Sensitivity (the behaviour before the repair 60d322b): without the copy, `x *= x[0]` on
 the two-part element `([2], [3])` leaves `12` in the second part instead of `6`. -/
 theorem C01.bcast_without_copy_fails :
